@@ -4,7 +4,9 @@ import (
 	"context"
 	"fmt"
 	"os"
+	"strings"
 
+	"github.com/formancehq/ledger/verifharness/pgmodel"
 	"github.com/formancehq/ledger/verifharness/stack"
 )
 
@@ -16,4 +18,66 @@ func main() {
 		os.Exit(1)
 	}
 	fmt.Println("bootstrap ok", pg.Tables("b1"), pg.Tables("_system"))
+	st := stack.Open(pg.Clone(), stack.Options{})
+	st.PG.Observer = func(ev pgmodel.StmtEvent) {
+		if ev.Err != "" {
+			sql := ev.SQL
+			if len(sql) > 1500 {
+				sql = sql[:1500]
+			}
+			fmt.Printf("   SQLERR sess=%d %s\n      %s\n", ev.Sess, ev.Err, sql)
+		}
+	}
+	fail := 0
+	do := func(method, path string, body any) {
+		r := st.Do(ctx, "w1", method, path, body, nil)
+		b := string(r.Body)
+		if len(b) > 700 {
+			b = b[:700] + "…"
+		}
+		fmt.Printf("%s %s -> %d %s\n", method, path, r.Status, strings.TrimSpace(b))
+		if r.Status >= 500 {
+			fail++
+		}
+	}
+	do("POST", "/v2/l1", map[string]any{"bucket": "b1"})
+	do("GET", "/v2/l1", nil)
+	do("POST", "/v2/l1/transactions", map[string]any{
+		"postings": []any{map[string]any{"source": "world", "destination": "users:001", "asset": "USD", "amount": 100}},
+		"metadata": map[string]any{"k": "v"}, "reference": "r1",
+	})
+	do("POST", "/v2/l1/transactions", map[string]any{
+		"script": map[string]any{"plain": "send [USD 30] (\n source = @users:001\n destination = @bank\n)\nset_tx_meta(\"a\", \"b\")"},
+	})
+	do("POST", "/v2/l1/transactions", map[string]any{
+		"postings": []any{map[string]any{"source": "users:001", "destination": "bank", "asset": "USD", "amount": 1000}},
+	})
+	do("POST", "/v2/l1/transactions/1/revert", nil)
+	do("POST", "/v2/l1/transactions/2/metadata", map[string]any{"x": "y"})
+	do("DELETE", "/v2/l1/transactions/2/metadata/x", nil)
+	do("POST", "/v2/l1/accounts/users:002/metadata", map[string]any{"role": "admin"})
+	do("DELETE", "/v2/l1/accounts/users:002/metadata/role", nil)
+	do("GET", "/v2/l1/transactions", nil)
+	do("GET", "/v2/l1/transactions?expand=volumes&expand=effectiveVolumes", nil)
+	do("GET", "/v2/l1/transactions/1?expand=volumes&expand=effectiveVolumes", nil)
+	do("GET", "/v2/l1/accounts?expand=volumes&expand=effectiveVolumes", nil)
+	do("GET", "/v2/l1/accounts/users:001?expand=volumes", nil)
+	do("GET", "/v2/l1/aggregate/balances", nil)
+	do("GET", "/v2/l1/volumes", nil)
+	do("GET", "/v2/l1/volumes?groupBy=1", nil)
+	do("GET", "/v2/l1/logs", nil)
+	do("GET", "/v2/l1/stats", nil)
+	do("GET", "/v2/l1/accounts?pit=2030-01-01T00:00:00Z&expand=volumes", nil)
+	do("GET", "/v2/l1/volumes?pit=2030-01-01T00:00:00Z", nil)
+	do("GET", "/v2/l1/aggregate/balances?pit=2030-01-01T00:00:00Z", nil)
+	do("GET", "/v2/l1/transactions?pit=2030-01-01T00:00:00Z", nil)
+	fmt.Println("NOTES:", pg.Notes(), st.PG.Notes())
+	fmt.Println("UNSUPPORTED:", st.PG.UnsupportedSeen())
+	fmt.Println("SKIPPED:", len(pg.SkippedLegacy()))
+	for _, s := range pg.SkippedLegacy() {
+		fmt.Println("   ", s)
+	}
+	if fail > 0 {
+		os.Exit(1)
+	}
 }
